@@ -13,7 +13,7 @@ def U_aes_kuf(): return Unit('aes_kuf', 'aes_shim.cpp', clang_extra=['-fno-excep
 def generic_replay(rp, units_by_name):
     """re-run a recorded counterexample natively against the real sources"""
     r = Run(rp['property'], 'replay')
-    ob = Ob(rp['obligation'], rp['harness'], [units_by_name[n]() for n in rp['units']], defines=rp['defines'])
+    ob = Ob(rp['obligation'], rp['harness'], [units_by_name[n]() for n in rp['units']], defines=rp['defines'], replay_envs=rp.get('replay_envs'))
     res = r.replay_native(ob, assignments=rp['assignments'], keep=False)
     print('replay %s: %s' % (rp['obligation'], res))
     print(getattr(ob, 'replay_output', '')[-1500:])
@@ -136,10 +136,10 @@ CLI_REPL = ['--replace', '_ZN8runcryptC2EP8_IO_FILES1_Ph8Settingsh=stub_rc_ctor'
 CLI_ROOTS = 'vf_main,vf_get_v_opt,vf_parseopts,vf_pak_new,vf_pak_set,vf_pak_fp,vf_pak_out,vf_pak_key,vf_pak_size,vf_pak_mode,vf_pak_ctype,vf_pak_htype,vf_pak_noecho,vf_rc_resultprint_off,vf_rc_sizeof,vf_pak_rbuf'
 CLI_INC = ['-I' + os.path.join(VERIF, 'shim', 'cli')]
 def U_cli(name='cli', extra=()):
-    return Unit(name, 'cli_shim.cpp', clang_extra=CLI_INC, extra_srcs=['main.cpp'] + CLI_SRCS, ir2c_args=CLI_REPL + list(extra) + ['--roots', CLI_ROOTS])
+    return Unit(name, 'cli_shim.cpp', clang_extra=CLI_INC, extra_srcs=['main.cpp'] + CLI_SRCS, ir2c_args=CLI_REPL + list(extra) + ['--exceptions', '--roots', CLI_ROOTS])
 def U_cli_tail(): return U_cli('cli_tail', ['--replace', '_Z9parseOptscP6vpak_t=stub_parseopts'])
 def U_cli_main(): return U_cli('cli_main', ['--replace', '_Z9get_v_optiPPc=stub_get_v_opt'])
 def U_cli_real():
     """the real command-line program with the real kernel (native replay only)"""
     return Unit('cli_real', 'cli_shim.cpp', clang_extra=CLI_INC, extra_srcs=['main.cpp', 'valget/getopts.cpp', 'valget/information.cpp', 'valget/getval1.cpp', 'valget/base64/base64.cpp'] + KERN_SRCS)
-CLI_ENVS = ['env_heap.c', 'env_cxx.c', 'env_file.c', 'env_io.c', 'env_ctype.c']
+CLI_ENVS = ['env_heap.c', 'env_cxx.c', 'env_exc.c', 'env_file.c', 'env_io.c', 'env_ctype.c']
